@@ -193,11 +193,13 @@ def gen_points(rng, n):
             elif kind == "condneg":
                 out.append(case1(T + "condneg %s %s" % (D(P), cs), "OK " + g.enc(g.neg(P) if ctl else P), ["point:condneg:ctl=%d" % (1 if ctl else 0), cn + ":point-condneg"]))
             elif kind == "equals":
-                t = rng.randrange(3)
+                t = rng.randrange(4)
                 if t == 0:
                     Q = P; cl = "same-element-other-repr"
                 elif t == 1:
                     Q = g.neg(P); cl = "opposite"
+                elif t == 2 and isinstance(g, G.EdG):
+                    Q = g.add(P, rng.choice([L for L in g.low if not g.is_neutral(L)])); cl = "differ-by-low-order-point"
                 else:
                     cl = "other"
                 e = g.eq(P, Q)
@@ -241,7 +243,7 @@ def main(argv):
         rep.require("field:set_cond:ctl=0", "field:set_cond:ctl=1", "field:cswap:ctl=1", "field:equals:equal-other-repr", "field:equals:neighbour",
                     "field:equals:one-bit", "field:iszero:nonzero-repr-of-zero", "field:lookup16_x3:out-of-range", "field:lookup16_x4:in-range",
                     "field:lookup:idx=15", "field:lookup:idx=16", "bin:lookup16_x2:out-of-range", "bin:lookup4_x2_nocheck:in-range", "bin:equals:equal-other-repr",
-                    "bin:iszero:nonzero-repr-of-zero", "point:condneg:ctl=1", "point:equals:same-element-other-repr", "point:isneutral:true",
+                    "bin:iszero:nonzero-repr-of-zero", "point:condneg:ctl=1", "point:equals:same-element-other-repr", "point:equals:differ-by-low-order-point", "point:isneutral:true",
                     "gls254:point-select", "decaf448:point-equals")
     except Inconclusive as e:
         rep.incon.append(str(e))
